@@ -2262,16 +2262,19 @@ static int add_mapping_entry(vnaproperty_yaml_t *vymlp, int t_map,
 }
 
 /*
- * _vnaproperty_yaml_import: import properties from the given YAML document
+ * yaml_import_node: import one YAML node and its descendants
  *   @vymlp:    common argument structure
  *   @rootptr:  address of property tree root
- *   @vp_node:  yaml node cast to void pointer
+ *   @node:     yaml node
+ *   @visiting: see yaml_import_guarded
  */
-int _vnaproperty_yaml_import(vnaproperty_yaml_t *vymlp,
-	vnaproperty_t **rootptr, void *vp_node)
+static int yaml_import_guarded(vnaproperty_yaml_t *vymlp,
+	vnaproperty_t **rootptr, yaml_node_t *node, bool *visiting);
+
+static int yaml_import_node(vnaproperty_yaml_t *vymlp,
+	vnaproperty_t **rootptr, yaml_node_t *node, bool *visiting)
 {
     yaml_document_t *document = vymlp->vyml_document;
-    yaml_node_t *node = vp_node;
 
     switch (node->type) {
     case YAML_SCALAR_NODE:
@@ -2337,7 +2340,7 @@ int _vnaproperty_yaml_import(vnaproperty_yaml_t *vymlp,
 			    vymlp->vyml_filename, strerror(errno));
 		    goto out;
 		}
-		if (_vnaproperty_yaml_import(vymlp, subtree, value) == -1) {
+		if (yaml_import_guarded(vymlp, subtree, value, visiting) == -1) {
 		    goto out;
 		}
 	    }
@@ -2368,7 +2371,7 @@ int _vnaproperty_yaml_import(vnaproperty_yaml_t *vymlp,
 			    vymlp->vyml_filename, strerror(errno));
 		    goto out;
 		}
-		if (_vnaproperty_yaml_import(vymlp, subtree, value) == -1) {
+		if (yaml_import_guarded(vymlp, subtree, value, visiting) == -1) {
 		    goto out;
 		}
 	    }
@@ -2381,6 +2384,59 @@ int _vnaproperty_yaml_import(vnaproperty_yaml_t *vymlp,
 
 out:
     return -1;
+}
+
+/*
+ * yaml_import_guarded: import a node unless it is its own ancestor
+ *   @vymlp:    common argument structure
+ *   @rootptr:  address of property tree root
+ *   @node:     yaml node
+ *   @visiting: per-node flags: node is being imported further up the stack
+ *
+ * YAML aliases can make a document cyclic ("&a [*a]"); expanding such a
+ * document into a tree would never end.
+ */
+static int yaml_import_guarded(vnaproperty_yaml_t *vymlp,
+	vnaproperty_t **rootptr, yaml_node_t *node, bool *visiting)
+{
+    yaml_document_t *document = vymlp->vyml_document;
+    size_t index = node - document->nodes.start;
+    int rc;
+
+    if (visiting[index]) {
+	_vnaproperty_yaml_error(vymlp, VNAERR_SYNTAX,
+		"%s (line %ld) error: alias refers to an enclosing node",
+		vymlp->vyml_filename, (long)node->start_mark.line + 1);
+	return -1;
+    }
+    visiting[index] = true;
+    rc = yaml_import_node(vymlp, rootptr, node, visiting);
+    visiting[index] = false;
+    return rc;
+}
+
+/*
+ * _vnaproperty_yaml_import: import properties from the given YAML document
+ *   @vymlp:    common argument structure
+ *   @rootptr:  address of property tree root
+ *   @vp_node:  yaml node cast to void pointer
+ */
+int _vnaproperty_yaml_import(vnaproperty_yaml_t *vymlp,
+	vnaproperty_t **rootptr, void *vp_node)
+{
+    yaml_document_t *document = vymlp->vyml_document;
+    size_t nodes = document->nodes.top - document->nodes.start;
+    bool *visiting;
+    int rc;
+
+    if ((visiting = calloc(nodes + 1, sizeof(bool))) == NULL) {
+	_vnaproperty_yaml_error(vymlp, VNAERR_SYSTEM,
+		"calloc: %s", strerror(errno));
+	return -1;
+    }
+    rc = yaml_import_guarded(vymlp, rootptr, vp_node, visiting);
+    free((void *)visiting);
+    return rc;
 }
 
 /*
